@@ -256,6 +256,18 @@ func registerBig(vm *VM) {
 		hi := smt.Int(new(big.Int).Sub(pow2(63), big.NewInt(1)))
 		return fromBoolTerm(smt.And(smt.Le(lo, x), smt.Le(x, hi)))
 	}
+	I["(*math/big.Int).IsUint64"] = func(vm *VM, _ *frame, a []Value) Value {
+		x := vm.bigGet(a[0], "IsUint64")
+		hi := smt.Int(new(big.Int).Sub(pow2(64), big.NewInt(1)))
+		return fromBoolTerm(smt.And(smt.Le(smt.Int64(0), x), smt.Le(x, hi)))
+	}
+	I["(*math/big.Int).BitLen"] = func(vm *VM, _ *frame, a []Value) Value {
+		x := vm.bigGet(a[0], "BitLen")
+		if x.Op != smt.OpIntConst {
+			vmErr("big.Int.BitLen on a symbolic value")
+		}
+		return int64(x.K.BitLen())
+	}
 	I["(*math/big.Int).Int64"] = func(vm *VM, _ *frame, a []Value) Value {
 		x := vm.bigGet(a[0], "Int64")
 		return fromIntTerm(wrapTerm(x, 64, true), 64, true)
